@@ -31,7 +31,20 @@ Inner2 == { t \in Ctor1(RepLeaves, RepKeys) : t[1] \in {"list", "dict", "opt", "
 Types2 == { t \in Ctor1(Inner2, RepKeys) : t[1] \in {"list", "dict", "opt", "tuple", "vtuple", "ntuple", "tdict", "odict", "utuple", "newtype", "mproxy"} }
 \* PEP 646 star syntax  tuple[X, *tuple[Y, ...], Z]  means the same as Tuple[X, Unpack[Tuple[Y, ...]], Z]
 Types1S == { <<"ustar", <<e>>, <<"int">>, << <<"str">> >> >> : e \in { <<"int">>, <<"str">>, <<"date">>, <<"bool">> } }
-Types == IF Depth = 0 THEN Leaves ELSE IF Depth = 1 THEN Types1 \cup Types1N \cup Types1S ELSE Types2
+\* a few unions (C11 enumerates them exhaustively; here they meet the whole foreign-input universe and every holder)
+Types1U == { <<"union", <<a, b>> >> : a \in { <<"int">>, <<"str">>, <<"float">> }, b \in { <<"list", <<"int">> >>, <<"dict", <<"str">>, <<"int">> >> } }
+           \cup { <<"union", << <<"list", <<"int">> >>, <<"int">> >> >> }     \* (a list member BEFORE str would accept text by iteration: shared wire form)
+           \cup { <<"union", << <<"int">>, <<"date">> >> >>, <<"union", << <<"date">>, <<"float">> >> >> }      \* (str | date share a wire form: excluded by C01)
+\* plain (non-mixin) dataclasses related by INHERITANCE, both used as nested fields, parent first
+ParentPlain == <<"dc", "Shape", << <<"name", <<"str">>, <<"req">>, <<>> >> >>, << <<"mixin", "plain">> >> >>
+ChildPlain == <<"dc", "Circle", << <<"name", <<"str">>, <<"req">>, <<>> >>, <<"radius", <<"float">>, <<"val", <<"float", 1, 0>> >>, <<>> >>,
+                                   <<"tags", <<"list", <<"str">> >>, <<"fac", L(<<>>)>>, <<>> >> >>,
+                << <<"mixin", "plain">>, <<"bases", <<ParentPlain>> >> >> >>
+InheritHolder(plain) == <<"dc", "Drawing", << <<"shape", ParentPlain, <<"req">>, <<>> >>, <<"circle", ChildPlain, <<"req">>, <<>> >>,
+                                               <<"more", <<"list", ChildPlain>>, <<"fac", L(<<>>)>>, <<>> >> >>,
+                          IF plain THEN << <<"mixin", "plain">> >> ELSE <<>> >>
+Types1I == { InheritHolder(TRUE), InheritHolder(FALSE) }
+Types == IF Depth = 0 THEN Leaves ELSE IF Depth = 1 THEN Types1 \cup Types1N \cup Types1S \cup Types1U \cup Types1I ELSE Types2
 FalsyLeaves == { <<"int">>, <<"float">>, <<"bool">>, <<"str">>, <<"bytes">>, <<"timedelta">>, <<"text", "decimal">>, <<"text", "fraction">> }
 AllTypes == Types \cup { Holder(t) : t \in Types } \cup { PlainHolder(t) : t \in Types }
             \cup { FalsyHolder(t, FirstOf(Smp(t))) : t \in Types \cap FalsyLeaves }
